@@ -138,6 +138,42 @@ fn big_boxed_from_iter_big_elements() -> bool {
     let b: Box<GenericArray<[u8; 16384], U16>> = (0..16u8).map(|i| [i; 16384]).collect();
     b.iter().enumerate().all(|(i, x)| x[0] == i as u8 && x[16383] == i as u8)
 }
+// elements with drop glue (a code path may be selected on needs_drop)
+#[derive(Clone, Default)]
+struct Dg(u32);
+impl Drop for Dg {
+    #[inline(never)]
+    fn drop(&mut self) {
+        std::hint::black_box(&self.0);
+    }
+}
+#[inline(never)]
+fn big_boxed_generate_dropglue() -> bool {
+    let b = Box::<GenericArray<Dg, BigN>>::generate(|i| Dg(i as u32));
+    b.iter().enumerate().all(|(i, x)| x.0 == i as u32)
+}
+#[inline(never)]
+fn big_default_boxed_dropglue() -> bool {
+    let b = GenericArray::<Dg, BigN>::default_boxed();
+    b.len() == 1 << 20 && b.iter().all(|x| x.0 == 0)
+}
+#[inline(never)]
+fn big_boxed_from_iter_dropglue() -> bool {
+    let b: Box<GenericArray<Dg, BigN>> = (0..1u32 << 20).map(Dg).collect();
+    b.iter().enumerate().all(|(i, x)| x.0 == i as u32)
+}
+#[inline(never)]
+fn big_box_arr_repeat_dropglue() -> bool {
+    let b = box_arr![Dg(9); BigN];
+    b.len() == 1 << 20 && b.iter().all(|x| x.0 == 9)
+}
+#[inline(never)]
+fn big_boxed_map_dropglue() -> bool {
+    use generic_array::functional::FunctionalSequence;
+    let b = Box::<GenericArray<Dg, BigN>>::generate(|i| Dg(i as u32));
+    let c: Box<GenericArray<Dg, BigN>> = b.map(|x| Dg(x.0 + 1));
+    c.iter().enumerate().all(|(i, x)| x.0 == i as u32 + 1)
+}
 #[inline(never)]
 fn big_probe_stack_default_u32() -> bool {
     let a = std::hint::black_box(GenericArray::<u32, BigN>::default());
@@ -163,6 +199,11 @@ pub fn bigstack_child(case: &str) -> i32 {
         "boxed_into_iter_roundtrip_u32_4MiB" => big_boxed_into_iter_roundtrip,
         "box_arr_repeat_expr_u64_8MiB" => big_box_arr_repeat_expr,
         "box_arr_repeat_u8x16_4MiB" => big_box_arr_repeat_u8x16,
+        "boxed_generate_dropglue_4MiB" => big_boxed_generate_dropglue,
+        "default_boxed_dropglue_4MiB" => big_default_boxed_dropglue,
+        "boxed_from_iter_dropglue_4MiB" => big_boxed_from_iter_dropglue,
+        "box_arr_repeat_dropglue_4MiB" => big_box_arr_repeat_dropglue,
+        "boxed_map_dropglue_4MiB" => big_boxed_map_dropglue,
         "default_boxed_16_x_16KiB_elements" => big_default_boxed_big_elements,
         "boxed_generate_16_x_16KiB_elements" => big_boxed_generate_big_elements,
         "boxed_from_iter_16_x_16KiB_elements" => big_boxed_from_iter_big_elements,
